@@ -15,6 +15,13 @@ Case genRc(bool open) {
   int64_t x0 = G::sym(M), x1 = G::sym(M), y0 = G::sym(M), y1 = G::sym(M);
   if (x0 == x1) x1 = x0 + 1 + G::range(0, M / 4 + 1);
   if (y0 == y1) y1 = y0 + 1 + G::range(0, M / 4 + 1);
+  if (G::chance(6)) {   // coincidences: a rectangle one unit wide or high, an exact square, a rectangle at the top of the allowed magnitude
+    int k = (int)G::range(0, 3);
+    if (k == 0) x1 = x0 + 1; else if (k == 1) y1 = y0 + 1;
+    else if (k == 2) { int64_t a = 1 + G::range(0, M); x1 = x0 + a; y1 = y0 + a; }
+    else { int64_t T = int64_t(1) << 40; x1 = T; x0 = T - 1 - G::range(0, M); y0 = -T; y1 = -T + 1 + G::range(0, M); }
+    ST.count("special_rectangle");
+  }
   R4 r{std::min(x0, x1), std::min(y0, y1), std::max(x0, x1), std::max(y0, y1)};
   c.i["l"] = r.l; c.i["t"] = r.t; c.i["r"] = r.r; c.i["b"] = r.b;
   int snapPct = (int)G::oneOf(std::vector<int64_t>{0, 0, 15, 40, 60});
